@@ -219,6 +219,9 @@ def possibly_unbound(func: ast.AST) -> list[tuple[ast.Name, str]]:
     return out
 
 
+_MUTATORS = {"append", "extend", "update", "pop", "clear", "add", "remove", "insert", "sort", "setdefault", "discard", "popitem", "reverse", "fill", "resize", "appendleft", "popleft", "intersection_update", "difference_update"}
+
+
 class SymValues:
     """Symbolic unfolding of locals: the expressions a sub-expression may stand for at its program point.
 
@@ -258,6 +261,13 @@ class SymValues:
                             stored.append(ast.unparse(sub))
                         elif isinstance(sub, ast.Subscript) and isinstance(sub.ctx, (ast.Store, ast.Del)):
                             stored.append(ast.unparse(sub.value))
+            # a mutating method called on a local: the local (and whatever was unfolded from it) no longer stands for its
+            # defining expression
+            for sub in ast.walk(node) if isinstance(node, (ast.Expr, ast.Assign, ast.AugAssign, ast.AnnAssign, ast.Return)) else ():
+                if isinstance(sub, ast.Call) and isinstance(sub.func, ast.Attribute) and sub.func.attr in _MUTATORS and isinstance(sub.func.value, ast.Name):
+                    stored.append(sub.func.value.id)
+                    env = dict(env)
+                    env[sub.func.value.id] = UNKNOWN
             if not stored:
                 return None
             new = dict(env)
